@@ -7,6 +7,10 @@ BASELINE_OFF = ("cd /repo && cargo nextest run --workspace --no-fail-fast --test
 
 # id -> (level, technique, design_ref, text, note)
 CHECKS = {
+ "C01": ("exploration", "exhaustive enumeration of SDK-encoded requests per operation x routing-relevant deviations x addressing/host configurations, and of the full raw product method x path kind x query-flag subsets x header subsets against a reference router derived from the Smithy model, on the real S3Service::call",
+         "DESIGN §4 C01",
+         "Operation side: for all 96 operations the request aws-sdk-s3 encodes for base() and for each single deviation of each query/header-bound member, under 5 addressing x host-parser combinations, must reach exactly that backend method. Request side: 8 methods x 4 path kinds x every subset (size <=2, thorough 3) of ~55 query flags/members x all 8 subsets of the discriminating headers (~5e5 requests), the resolved route observed at the access hook and compared with a most-specific-match reference router built only from data/s3.json.",
+         "requests whose most-specific match is not unique, or which carry a sub-resource flag foreign to the denoted operation, are counted and not judged; flag subsets larger than the bound are not covered"),
  "C19": ("fault_enumeration", "exhaustive enumeration of fault positions, abandon points and crash points of object writes, and all task interleavings (preemption-bounded for 3 tasks) at file-system-call granularity under a controlled scheduler over tokio's blocking pool, on the real s3s-fs backend",
          "DESIGN §4 C19, §2 E3",
          "Faults: body I/O error after each frame, each checksum algorithm wrong and right, corrupted signature of each chunk, through the real service. Abandon and crash points: the write future is dropped (both while its file-system call is queued and after it completed) or the tree is copied and restarted after every single step. Schedules: all interleavings of two writers and of writer + reader (thousands of complete executions), three tasks with a preemption bound, each execution replayable from its choice sequence; determinism of the scheduler is self-checked on every configuration.",
